@@ -8,7 +8,7 @@ EXPLANATION = (
     "D3 the guards of both line-recording sites compare the first-non-blank cursor with the line end without a net offset (difference-bound normal form k = 0) and agree with each other; "
     "D3-TRANSFER the scan loop's per-byte transfer table by role: newline -> line start and cursor := idx+1, flag := true; leading blank -> cursor += 1; any other byte -> flag := false; the line start never moves inside a line; all start at 0/true "
     "(so the invariant 'start = 1 + previous newline, cursor = start + leading blanks, flag <=> only blanks so far' is inductive and the recorded ranges are the exact non-blank lines); "
-    "D4 blank-ness and argument stripping are decided on bytes (no u8-as-char cast into a Unicode char predicate)")
+    "D4 blank-ness and argument stripping are decided on bytes (no u8-as-char cast into a Unicode char predicate); D1-SPLIT how a line is cut: separator = first b' ' (position over the whole line), command word = bytes[0..sep] or the whole line, argument = first non-blank at or after sep (a cursor moved one byte per blank, or sep.. plus the position of the first non-blank); the recording sites may record (start,end) pairs for a second pass or parse and push the entry themselves (single pass)")
 NOT_DECIDED = [
     "the induction itself (invariant + D3-TRANSFER + D3-LINE-GUARD => exact bounds) is a pen-and-paper step recorded in DESIGN.md, not re-proved per run; Enumerate yields consecutive indices from 0 (std)",
     "slice / OsStr / String::from_utf8 semantics (std)",
